@@ -580,6 +580,23 @@ def loops_to_comprehensions(fn, recorded_names):
     return k
 
 
+def drop_dead_new_locals(fn, recorded_names):
+    """A local the record does not know that is assigned a constant and never read (the result variable of an inlined
+    helper that returns nothing) is dropped."""
+    k = 0
+    loaded = {n.id for n in ast.walk(fn) if isinstance(n, ast.Name) and isinstance(n.ctx, ast.Load)}
+    for _owner, blk in _blocks(fn):
+        i = 0
+        while i < len(blk):
+            st = blk[i]
+            if isinstance(st, ast.Assign) and len(st.targets) == 1 and isinstance(st.targets[0], ast.Name) and st.targets[0].id not in recorded_names and st.targets[0].id not in loaded and isinstance(st.value, ast.Constant) and len(blk) > 1:
+                del blk[i]
+                k += 1
+                continue
+            i += 1
+    return k
+
+
 # value-only library calls: repeating one of them is not observable (used to allow multi-use aliases to be inlined)
 PURE_CALLS = {
     "slice", "max", "min", "sum", "abs", "len", "float", "int", "bool", "round", "sorted", "tuple", "list", "set", "dict", "range", "zip", "enumerate", "isinstance",
@@ -880,6 +897,7 @@ def _relocate(node, ref):
 
     def visit(n):
         if hasattr(n, "lineno") or isinstance(n, (ast.expr, ast.stmt)):
+            n._reloc = True
             k[0] += 1
             # same source line as the call, ordered after earlier fragments and in the fragment's own order
             n.lineno = base + min(0.9, _SEQ[0] * 1e-3) * 0.1 + min(k[0], 9999) * 1e-6
@@ -891,6 +909,32 @@ def _relocate(node, ref):
 
     visit(node)
     return node
+
+
+def _renumber_relocated(fn):
+    """Positions of inlined fragments follow the order in which the statements now stand: a relocated node gets the
+    line of the last original node before it (in source order) plus a growing fraction, so that rules which order
+    statements by position see the order of execution whatever the nesting of the inlining was."""
+
+    cur = [float(getattr(fn, "lineno", 1))]
+    cnt = [0]
+
+    def visit(n):
+        if isinstance(n, (ast.expr, ast.stmt)) and hasattr(n, "lineno"):
+            if getattr(n, "_reloc", False):
+                cnt[0] += 1
+                n.lineno = int(cur[0]) + min(cnt[0], 899999) * 1e-6
+                n.end_lineno = n.lineno
+            else:
+                if float(n.lineno) >= int(cur[0]):
+                    if int(float(n.lineno)) > int(cur[0]):
+                        cnt[0] = 0
+                    cur[0] = float(n.lineno)
+        for ch in ast.iter_child_nodes(n):
+            visit(ch)
+
+    for st in fn.body:
+        visit(st)
 
 
 def inline_new_helpers(project, rec):
@@ -1119,6 +1163,9 @@ def inline_new_helpers(project, rec):
                     pass
         if not changed:
             break
+    for fi_ in project.functions.values():
+        if any(getattr(x, "_reloc", False) for x in ast.walk(fi_.node)):
+            _renumber_relocated(fi_.node)
     # a helper whose every call site was inlined is dead code for the analysis: rules that enumerate functions must
     # not see its body a second time, out of context
     for q, (hfi, ps, defaults, sh) in shapes.items():
@@ -1223,6 +1270,8 @@ def normalise(project, path=PINNED):
                     stats["locals_inlined"] += k
                     progress += k
                 if not progress:
+                    progress += drop_dead_new_locals(fi.node, rec_names | _params(fi.node))
+                if not progress:
                     progress += split_ret_tuples(fi.node)
                 if not progress:
                     progress += fold_list_concat(fi.node)
@@ -1306,6 +1355,14 @@ def fold_list_concat(fn):
             if isinstance(n.op, ast.Add) and isinstance(n.left, ast.List) and isinstance(n.right, ast.List) and not any(isinstance(x, ast.Starred) for x in n.left.elts + n.right.elts):
                 n_fold[0] += 1
                 return ast.copy_location(ast.List(elts=n.left.elts + n.right.elts, ctx=ast.Load()), n)
+            return n
+
+        def visit_Call(self, n):
+            self.generic_visit(n)
+            if isinstance(n.func, ast.Name) and n.func.id == "getattr" and len(n.args) == 2 and not n.keywords and isinstance(n.args[1], ast.Constant) and isinstance(n.args[1].value, str) and n.args[1].value.isidentifier():
+                # getattr(x, "name") is x.name
+                n_fold[0] += 1
+                return ast.copy_location(ast.Attribute(value=n.args[0], attr=n.args[1].value, ctx=ast.Load()), n)
             return n
 
         def visit_Subscript(self, n):
